@@ -27,7 +27,8 @@ type C13Case struct {
 	Bad    int       `json:"bad"`   // position of a malformed tree inserted in the Newick stream (-1: none)
 	Blank  []int     `json:"blank"` // positions after which a blank line is inserted in the Newick stream
 	CRLF   bool      `json:"crlf,omitempty"`
-	Chain  []string  `json:"chain"` // conversion chain, e.g. ["nexus","phyloxml","nexus+t"]
+	Trail  []string  `json:"trail,omitempty"` // blanks written after the ';' of tree i (cyclic)
+	Chain  []string  `json:"chain"`           // conversion chain, e.g. ["nexus","phyloxml","nexus+t"]
 	BufSz  int       `json:"bufsz"`
 	Chunks []int     `json:"chunks"`
 	Sched  SchedCase `json:"sched"`
@@ -38,7 +39,7 @@ func init() {
 		Name: "c13", Prop: "C13",
 		Rule: "case = (list of 1..6 trees on 3..13 taxa: rooted or not, multifurcating, with / without / partly with lengths, supports or inner names, names from " +
 			"[A-Za-z0-9_.] incl. a few purely numeric ones; a conversion chain of 1..3 hops over {Nexus, Nexus+translate, Tree.Nexus, PhyloXML}; chunk plan, " +
-			"bufio size, reader/consumer schedule; optionally one malformed tree at position j, blank lines, CRLF). Every hop is written by gotree's writer fed " +
+			"bufio size, reader/consumer schedule; optionally one malformed tree at position j, blank lines, blanks and tabs after a tree's ';', CRLF). Every hop is written by gotree's writer fed " +
 			"through a channel and read back by ReadMultiTrees (real goroutine, scheduled) and by ReadTreeReader from a simulated chunked stream. Oracle: the " +
 			"reference-model view (shape with child order, names, lengths, supports) after each hop equals the source's; ids are 0,1,2,… in file order; a " +
 			"malformed tree at j gives trees 0..j-1 then exactly one error record; single reader = first record of the multi reader (or both fail), for the " +
@@ -49,7 +50,7 @@ func init() {
 		Real: []string{"Tree.Newick", "Tree.Nexus", "nexus.WriteNexus", "phyloxml.WritePhyloXML", "nexus.Parser", "phyloxml.Parser", "nextstrain.Parser", "newick.Parser",
 			"fileutils.ReadUntilSemiColon", "utils.ReadMultiTrees reader goroutine", "utils.ReadTreeReader"},
 		Simulated: []string{"input byte stream (chunk plan, zero-length reads, buffer size)", "reader goroutine vs. consumer schedule", "position of the malformed tree"},
-		Expected:  []string{"hop:nexus", "hop:nexus+t", "hop:treenexus", "hop:phyloxml", "malformed-at-0", "malformed-in-middle", "numeric-names", "rooted-tree", "isprefix-path", "single-vs-multi:nextstrain"},
+		Expected:  []string{"hop:nexus", "hop:nexus+t", "hop:treenexus", "hop:phyloxml", "blanks-after-semicolon", "malformed-at-0", "malformed-in-middle", "numeric-names", "rooted-tree", "isprefix-path", "single-vs-multi:nextstrain"},
 	})
 }
 
@@ -99,6 +100,7 @@ func genC13(rt *rapid.T, tier string) any {
 	}
 	c.Blank = rapid.SliceOfN(rapid.IntRange(0, ntrees), 0, 3).Draw(rt, "blank")
 	c.CRLF = rapid.IntRange(0, 5).Draw(rt, "crlf") == 0
+	c.Trail = rapid.SliceOfN(rapid.SampledFrom([]string{"", "", " ", "\t", " \t ", "\t\t", "   "}), 1, 3).Draw(rt, "trail")
 	c.Chain = rapid.SliceOfN(rapid.SampledFrom([]string{"nexus", "nexus+t", "treenexus", "phyloxml"}), 1, 3).Draw(rt, "chain")
 	c.BufSz = rapid.SampledFrom([]int{16, 17, 64, 4096, 65536}).Draw(rt, "bufsz")
 	c.Chunks = rapid.SliceOfN(rapid.SampledFrom([]int{0, 1, 2, 3, 7, 16, 64, 4096}), 1, 4).Draw(rt, "chunks")
@@ -297,7 +299,14 @@ func execC13(t *testing.T, cc any, o *Outcome) {
 			}
 		}
 		if i < n {
-			sb.WriteString(c.Trees[i] + eol)
+			trail := ""
+			if len(c.Trail) > 0 {
+				trail = c.Trail[i%len(c.Trail)]
+			}
+			if trail != "" {
+				o.Probe("blanks-after-semicolon")
+			}
+			sb.WriteString(c.Trees[i] + trail + eol)
 			pos++
 			if blank[pos] {
 				sb.WriteString("  " + eol)
